@@ -60,7 +60,7 @@ static void do_op(Cmd *c) {
             if (kv_str(c, "exp", NULL)) conf.exp_factor = strtof(kv_str(c, "exp", "2"), NULL);
             conf.mem_alloc = conf_malloc; conf.mem_calloc = conf_calloc; conf.mem_free = conf_free;
             st = cc_pqueue_new_conf(&conf, &pq);
-        } else { default_mode = 1; st = cc_pqueue_new(&pq, cmp_fn); }
+        } else { st = cc_pqueue_new(&pq, cmp_fn); }
         if (st != CC_OK) pq = NULL;
         o_stat(st); o(" ");
     } else if (!pq) { o("st=- nosession"); o_sep(); o("-"); return;
